@@ -175,7 +175,10 @@ def check_case(case: dict) -> Outcome:
         out.nontrivial = _interesting(s) or any(c in s for c in ".+()[]{}|^$")
         method = case.get("method", "to_regex")
         n = case.get("subject_len", 3)
-        letters = list(dict.fromkeys(SUBJECT_ALPHA + [t[1] for t in toks if isinstance(t, tuple)]))[:9]
+        lits = [t[1] for t in toks if isinstance(t, tuple)]
+        # subjects also use the case variants of the literal characters (each character of them)
+        variants = [c for ch in lits for c in (ch.upper() + ch.lower())]
+        letters = list(dict.fromkeys(SUBJECT_ALPHA + lits + variants))[:11]
         try:
             if method == "to_regex":
                 r = SigmaString(s).to_regex()
@@ -198,7 +201,9 @@ def check_case(case: dict) -> Outcome:
                 m = pat.fullmatch(subj) is not None
                 g = rs.glob_match(toks, subj, ci=ci) if not ci else _ci_match(toks, subj)
                 if m != g:
-                    out.fail(f"C05:regex:{method}", f"{s!r} -> /{str(r.regexp)}/: subject {subj!r} regex={m} glob={g}")
+                    special = [ch for ch in lits if len(ch.upper()) != 1 or len(ch.lower()) != 1 or ch.upper().lower() != ch.lower() or (ch.isalpha() and ch not in (ch.upper(), ch.lower()))]
+                    cls = ":special-case-mapping" if special and method != "to_regex" else ""
+                    out.fail(f"C05:regex:{method}{cls}", f"{s!r} -> /{str(r.regexp)}/: subject {subj!r} regex={m} glob={g}")
                     return out
         return out
     if kind == "reesc":
@@ -350,7 +355,7 @@ def random_cases(draw):
     if kind == "parse":
         return {"kind": "parse", "s": draw(wide)}
     if kind == "regex":
-        s = "".join(draw(st.lists(st.sampled_from(list("\\*?a.A(x[é$+")), max_size=6)))
+        s = "".join(draw(st.lists(st.sampled_from(list("\\*?a.A(x[é$+ßǅ")), max_size=6)))
         return {"kind": "regex", "s": s, "method": draw(st.sampled_from(["to_regex", "plain", "ignore_case_flag", "ignore_case_brackets"])), "subject_len": 3}
     if kind == "reesc":
         pat = "".join(draw(st.lists(st.sampled_from(["a", "/", "\\", "\\/", "bar", "b", ".*", "\\d", "(x)", "^", " ", "\\\\"]), max_size=8)))
